@@ -41,6 +41,7 @@ CONFIGS = {
     "cluster6": ("Cluster6", 2, 12),   # 729 bags, tight clusters far apart
     "lattice9": ("Lattice9", 1, 9),    # 512 bags, L1 ties
 }
+DEEP_COMBOS = [(s, p) for s in ("gnat", "gnat-nts") for p in ("2-2-4-2-2-on", "3-2-5-1-500-off")]
 ACTIONS = {"Add", "AddMany", "Remove", "RemoveAbsent", "Clear"}
 INVARIANTS = ("TypeOK Canonical KSorted KLen KPrefix RPrefixOfK RMonotone RBounded NearestIsK1 ApproxWeaker "
               "SizeAgrees KSubBag RAnswerAgrees ListAgrees")
@@ -86,24 +87,16 @@ def _util_objects():
     return objs
 
 
-def _build():
-    """-> (plain -O2 binary, ASan binary, probe available)."""
-    objs = _util_objects()
-
-    def both(extra):
-        with ThreadPoolExecutor(2) as ex:
-            a = ex.submit(build_harness, "nn", False, None, tuple(extra), "plain", "-O2")
-            b = ex.submit(build_harness, "nn", False, "asan", tuple(extra), "plain", "-O1")
-            return a.result(), b.result()
+def _build_one(san, objs):
+    """-> (binary, probe available).  The probe (-DNN_PROBE) reads protected members of the GNATs;
+    if a refactoring renamed them the contract check still runs, only the counting of internal
+    transitions is lost."""
+    opt = "-O1" if san else "-O2"
     try:
-        fast, asan = both(["-DNN_PROBE"] + objs)
-        return fast, asan, True
+        return build_harness("nn", needs_lib=False, san=san, extra=tuple(["-DNN_PROBE"] + objs), opt=opt), True
     except FrameworkError as ex:
-        # the probe reads protected members of the GNATs; if a refactoring renamed them the
-        # contract check still runs, only the counting of internal transitions is lost
         log("[C10] probe build failed, building without it: %s" % str(ex)[-400:])
-        fast, asan = both(objs)
-        return fast, asan, False
+        return build_harness("nn", needs_lib=False, san=san, extra=tuple(objs), opt=opt), False
 
 
 # ------------------------------------------------------------------ model
@@ -112,7 +105,7 @@ def _dump_worker(config):
     of one configuration, gate it, write it.  -> (TlcResult without output, path, info)"""
     edges = []
     res = run_tlc("ds/NearestNeighbors", cfg=_cfg("dump-" + config, config, True, False), workers=1, timeout=1800,
-                  json_sink=edges.append)
+                  json_sink=edges.append, heap="1g")
     if res.error:
         raise FrameworkError(res.error)
     if res.violated:
@@ -132,15 +125,32 @@ def _dump_worker(config):
     return res, gpath, {"states": len(g.ids), "edges": len(g.edges), "edges_per_action": acts}
 
 
-def _dump_graphs(ck, configs):
+def _mc_worker(config, subsets):
+    """Worker process: the contract's consistency invariants on one configuration."""
+    res = run_tlc("ds/NearestNeighbors", cfg=_cfg("mc-" + config, config, False, subsets), workers=4, timeout=3000,
+                  heap="2g")
+    if res.error:
+        raise FrameworkError(res.error)
+    if res.violated:
+        raise FrameworkError("the contract specification is inconsistent: %s violated in %s\n%s"
+                             % (res.violated, config, res.out[-2000:]))
+    res.out = ""
+    return res
+
+
+def _model(ck, mcs, configs):
+    """Model-check the contract and dump the state graphs (TLC runs side by side)."""
     graphs = {}
     with ProcessPoolExecutor(4) as exr:
-        futs = {c: exr.submit(_dump_worker, c) for c in configs}
-        for c, f in futs.items():
+        dumps = {c: exr.submit(_dump_worker, c) for c in configs}
+        checks = {c: exr.submit(_mc_worker, c, subsets) for c, subsets in mcs}
+        for c, f in dumps.items():
             res, gpath, info = f.result()
             ck.tlc(res, "dump-" + c)
             ck.set("graph_" + c, info)
             graphs[c] = gpath
+        for c, f in checks.items():
+            ck.tlc(f.result(), "mc-" + c)
     return graphs
 
 
@@ -188,10 +198,11 @@ class Agg:
                 mine[k] = mine.get(k, 0) + v
 
 
-def _replay_job(agg, binary, config, gpath, depth, structure, params, walks, walklen, alphabet, reuse, seed_env):
+def _replay_job(agg, binary, config, gpath, depth, structure, params, walks, walklen, alphabet, reuse, seed_env,
+                shard="0/1"):
     t0 = time.time()
     rc, out, err = run_cmd([binary, "replay", gpath, str(depth), structure, params, str(walks), str(walklen), alphabet,
-                            str(reuse)], timeout=7200, env={"VERIF_SEED": str(seed_env)})
+                            str(reuse), shard], timeout=7200, env={"VERIF_SEED": str(seed_env)})
     summ = _parse_lines(out, "SUMMARY")
     label = "%s:%s" % (structure, params)
     with agg.lock:
@@ -231,19 +242,20 @@ def _plan(tier):
     if tier == "quick":
         ex = [("line4", 6, "noabsent", 0), ("line4", 5, "noabsent", 1), ("line4", 4, "full", 0),
               ("dup2", 6, "noabsent", 0), ("cluster6", 4, "noabsent", 0), ("lattice9", 4, "noabsent", 0)]
-        rnd = [("line4", 120, 60), ("dup2", 80, 60), ("cluster6", 120, 80), ("lattice9", 80, 60)]
+        rnd = [("line4", 100, 60), ("dup2", 60, 60), ("cluster6", 80, 80), ("lattice9", 60, 60)]
         rec = (4, 1000)
-        mc = [("line4", True), ("dup2", True), ("cluster6", False)]
+        mc = [("line4", True), ("dup2", True)]
         deep = []
     else:
         ex = [("line4", 7, "noabsent", 0), ("line4", 6, "noabsent", 1), ("line4", 5, "full", 0),
-              ("dup2", 8, "noabsent", 0), ("dup2", 6, "full", 1), ("cluster6", 6, "noabsent", 0),
-              ("lattice9", 6, "noabsent", 0)]
-        rnd = [("line4", 1500, 80), ("dup2", 1000, 80), ("cluster6", 1500, 120), ("lattice9", 1000, 100)]
+              ("dup2", 7, "noabsent", 0), ("dup2", 5, "full", 1), ("cluster6", 5, "noabsent", 0),
+              ("lattice9", 5, "noabsent", 0)]
+        rnd = [("line4", 600, 80), ("dup2", 400, 80), ("cluster6", 600, 120), ("lattice9", 400, 100)]
         rec = (24, 1000)
         mc = [("line4", True), ("dup2", True), ("cluster6", False), ("lattice9", True)]
-        # depth 8 over the 4-point graph (25.9 million histories each) where the tree is busiest
-        deep = [(s, p) for s in ("gnat", "gnat-nts") for p in ("2-2-4-2-2-on", "3-2-5-1-500-off")]
+        # where the tree is busiest (DEEP_COMBOS): depth 8 over the 4-point graph (25.9 million
+        # histories per combination, in 8 shards) and depth 6 over the cluster and lattice graphs
+        deep = [("line4", 8, 8), ("cluster6", 6, 4), ("lattice9", 6, 4)]
     return ex, rnd, rec, mc, deep
 
 
@@ -256,50 +268,53 @@ def run(tier):
                        "the first pivot of every split is drawn from ompl::RNG (seeded from VERIF_SEED)"]
     ex_plan, rnd_plan, (nexec, nops), mcs, deep = _plan(tier)
     t0 = time.time()
-    fast, asan, have_probe = _build()
-    ck.set("probe_available", have_probe)
-    log("[C10] builds done in %.1fs" % (time.time() - t0))
+    objs = _util_objects()
+    builders = ThreadPoolExecutor(2)            # compile while TLC works on the model
+    fast_f = builders.submit(_build_one, None, objs)
+    asan_f = builders.submit(_build_one, "asan", objs)
 
-    # 1. the contract's internal consistency
-    for config, subsets in mcs:
-        res = run_tlc("ds/NearestNeighbors", cfg=_cfg("mc-" + config, config, False, subsets), workers=vlib.NCPU,
-                      timeout=3000)
-        ck.tlc(res, "mc-" + config)
-        if res.violated:
-            raise FrameworkError("the contract specification is inconsistent: %s violated in %s\n%s"
-                                 % (res.violated, config, res.out[-2000:]))
-    # 2. state graphs with answer tables
-    graphs = _dump_graphs(ck, list(CONFIGS))
+    # 1. the contract's internal consistency; 2. its state graphs with the answer tables
+    graphs = _model(ck, mcs, list(CONFIGS))
     log("[C10] model checked and graphs dumped at %.1fs" % (time.time() - t0))
 
-    # 3. every history up to the depth bound + random walks, all structures x parameter sets
+    # 3. every history up to the depth bound (plain build) + random walks (ASan build), on all
+    #    structures x parameter sets; 4. recorded random histories validated by TLC
     agg = Agg()
-    jobs = []
-    for s, p in deep:
-        jobs.append((fast, "line4", graphs["line4"], 8, s, p, 0, 0, "noabsent", 0, vlib.seed()))
+    pool = ThreadPoolExecutor(vlib.NCPU)
+    futs = []
+    fast, probe_fast = fast_f.result()
+    for config, depth, shards in deep:
+        for s, p in DEEP_COMBOS:
+            for i in range(shards):
+                futs.append(pool.submit(_replay_job, agg, fast, config, graphs[config], depth, s, p, 0, 0, "noabsent", 0,
+                                        vlib.seed(), "%d/%d" % (i, shards)))
     for config, depth, alphabet, reuse in ex_plan:
         for s, p in COMBOS:
-            jobs.append((fast, config, graphs[config], depth, s, p, 0, 0, alphabet, reuse, vlib.seed()))
+            futs.append(pool.submit(_replay_job, agg, fast, config, graphs[config], depth, s, p, 0, 0, alphabet, reuse,
+                                    vlib.seed()))
+    asan, probe_asan = asan_f.result()
+    builders.shutdown()
+    have_probe = probe_fast and probe_asan
+    ck.set("probe_available", have_probe)
+    log("[C10] builds done at %.1fs" % (time.time() - t0))
     for config, walks, wl in rnd_plan:
         for s, p in COMBOS:
-            jobs.append((asan, config, graphs[config], 0, s, p, walks, wl, "full", 0, vlib.seed()))
-    with ThreadPoolExecutor(vlib.NCPU) as exr:
-        futs = [exr.submit(_replay_job, agg, *j) for j in jobs]
-        for f in futs:
-            f.result()
-    log("[C10] replay done at %.1fs: %d scenarios (%d exhaustive paths), %d steps, %d queries"
-        % (time.time() - t0, agg.scenarios, agg.exhaustive, agg.steps, agg.queries))
-
-    # 4. recorded random histories validated by TLC
+            futs.append(pool.submit(_replay_job, agg, asan, config, graphs[config], 0, s, p, walks, wl, "full", 0, vlib.seed()))
     results = []
-    with ProcessPoolExecutor(min(vlib.NCPU, 8)) as exr:
-        futs = [exr.submit(_record_worker, asan, i, s, p, nexec, nops) for i, (s, p) in enumerate(COMBOS)]
-        for f in futs:
+    with ProcessPoolExecutor(6) as exr:
+        rfuts = [exr.submit(_record_worker, asan, i, s, p, nexec, nops) for i, (s, p) in enumerate(COMBOS)]
+        for f in rfuts:
             info = f.result()
             results.append(info)
             if info["rec"]:
-                agg.add_probe(info["structure"], "record:" + info["params"], info["rec"]["probe"])
+                with agg.lock:
+                    agg.add_probe(info["structure"], "record:" + info["params"], info["rec"]["probe"])
     log("[C10] traces validated at %.1fs" % (time.time() - t0))
+    for f in futs:
+        f.result()
+    pool.shutdown()
+    log("[C10] replay done at %.1fs: %d scenarios (%d exhaustive paths), %d steps, %d queries"
+        % (time.time() - t0, agg.scenarios, agg.exhaustive, agg.steps, agg.queries))
 
     # ---- evidence
     ck.add("traces_validated_against_impl", agg.scenarios)
@@ -308,7 +323,7 @@ def run(tier):
     ck.set("queries_compared", agg.queries)
     ck.set("structures_x_parameter_sets", len(COMBOS))
     ck.set("exhaustive_plan", [{"graph": c, "depth": d, "alphabet": a, "reinsert_removed": bool(r)} for c, d, a, r in ex_plan]
-           + [{"graph": "line4", "depth": 8, "structure": s, "params": p} for s, p in deep])
+           + [{"graph": c, "depth": d, "combinations": ["%s:%s" % sp for sp in DEEP_COMBOS]} for c, d, _ in deep])
     ck.set("internal_transitions", agg.probe)
     ck.set("internal_transitions_by_params", agg.probe_by_params)
     ck.set("exhaustive", True)
@@ -366,7 +381,7 @@ def run(tier):
     # ---- vacuity gates
     if agg.queries == 0 or agg.exhaustive == 0:
         raise FrameworkError("vacuity gate: nothing was replayed")
-    if have_probe:
+    if have_probe and not ck.violations:
         need = ["splits", "rebuild_pivot", "rebuild_cache_full", "rebuild_split_with_cache", "rebuild_rebalance",
                 "cached_removals", "degenerate_pivot_sets"]
         missing = [k for k in need if not agg.probe.get(k)]
@@ -398,14 +413,65 @@ def replay(path):
         print("re-run ./check C10 to reproduce (crash while walking the graph %s)" % sc.get("config"))
         return 1
     ck = Check(PID, "replay", "model_checking")
-    gpath = _dump_graphs(ck, [sc["config"]])[sc["config"]]
-    objs = _util_objects()
-    try:
-        binary = build_harness("nn", needs_lib=False, san="asan", extra=tuple(["-DNN_PROBE"] + objs))
-    except FrameworkError:
-        binary = build_harness("nn", needs_lib=False, san="asan", extra=tuple(objs))
+    gpath = _model(ck, [], [sc["config"]])[sc["config"]]
+    binary, _ = _build_one("asan", _util_objects())
     rc, out, err = run_cmd([binary, "scenario", gpath, os.path.abspath(path)], timeout=600)
     print(out[-4000:])
     if rc not in (0, 1):
         print(err[-2000:])
     return 0 if rc == 0 else 1
+
+
+def _l1(a, b):
+    return abs(a % 1024 - b % 1024) + abs(a // 1024 - b // 1024)
+
+
+def selftest():
+    """Binding demonstration for the trace spec: record a short history from a healthy
+    structure, corrupt one field at a time, and require that TLC rejects exactly that line."""
+    import copy
+    binary, _ = _build_one(None, _util_objects())
+    tpath = os.path.join(WORK, "c10-selftest.ndjson")
+    rc, out, err = run_cmd([binary, "record", tpath, "gnat", "2-2-4-2-2-on", "1", "900"], env={"VERIF_SEED": str(vlib.seed())})
+    if rc != 0:
+        raise FrameworkError("selftest: record failed: " + (err or out)[-1000:])
+    evs = vlib.read_ndjson(tpath)
+
+    def find(pred):
+        for i in range(150, len(evs)):
+            if pred(evs[i]):
+                return i
+        raise FrameworkError("selftest: no suitable event in the recorded trace")
+    cases = []
+    i = find(lambda e: e["e"] == "Add")
+    c = copy.deepcopy(evs); c[i]["n"] += 1
+    cases.append(("size() after add off by one", i, c))
+    i = find(lambda e: e["e"] == "NearestK" and len(e["res"]) >= 2 and
+             _l1(e["res"][0]["pt"], e["q"]) != _l1(e["res"][-1]["pt"], e["q"]))
+    c = copy.deepcopy(evs); c[i]["res"][0], c[i]["res"][-1] = c[i]["res"][-1], c[i]["res"][0]
+    cases.append(("k-nearest answer not in non-decreasing order", i, c))
+    i = find(lambda e: e["e"] == "NearestR" and len(e["res"]) >= 2)
+    c = copy.deepcopy(evs); c[i]["res"][1] = c[i]["res"][0]
+    cases.append(("the same element twice in a radius answer", i, c))
+    i = find(lambda e: e["e"] == "List" and len(e["res"]) >= 3)
+    c = copy.deepcopy(evs); del c[i]["res"][1]
+    cases.append(("list() misses an element", i, c))
+    i = find(lambda e: e["e"] == "Remove" and e["res"])
+    c = copy.deepcopy(evs); c[i]["res"] = False
+    cases.append(("remove() of a present element reported false", i, c))
+    i = find(lambda e: e["e"] == "NearestK" and len(e["res"]) >= 1)
+    c = copy.deepcopy(evs); c[i]["res"][-1]["uid"] = 999999
+    cases.append(("k-nearest returns a non-member", i, c))
+    bad = 0
+    acc, prefix, res = validate_trace("ds/NearestNeighborsTrace", tpath, heap="2g")
+    print("recorded trace (%d events): %s" % (len(evs), "accepted" if acc else "REJECTED at %d" % (prefix + 1)))
+    bad += 0 if acc else 1
+    cp = os.path.join(WORK, "c10-selftest-corrupt.ndjson")
+    for name, i, c in cases:
+        vlib.write_ndjson(cp, c)
+        acc, prefix, res = validate_trace("ds/NearestNeighborsTrace", cp, heap="2g")
+        ok = (not acc) and prefix == i
+        print("%-50s line %4d: %s" % (name, i + 1, "rejected there" if ok else "NOT rejected at that line (accepted=%s, prefix=%s)" % (acc, prefix)))
+        bad += 0 if ok else 1
+    print("selftest %s" % ("ok" if not bad else "FAILED"))
+    return 0 if not bad else 1
